@@ -70,14 +70,14 @@ def RK4Iterator(f, t, X_old, updateX):
     X_k1 = updateX(X_old, k1, dt/2)
 
     k2 = f(t + dt/2, X_k1)
-    dxdtsum += 2*k2
+    dxdtsum = dxdtsum + 2*k2
     X_k2 = updateX(X_old, k2, dt/2)
 
     k3 = f(t + dt/2, X_k2)
-    dxdtsum += 2*k3
+    dxdtsum = dxdtsum + 2*k3
     X_k3 = updateX(X_old, k3, dt)
 
     k4 = f(t + dt, X_k3)
-    dxdtsum += k4
+    dxdtsum = dxdtsum + k4
 
     return updateX(X_old, dxdtsum/6, dt), dt
